@@ -192,3 +192,8 @@ TEXT["C17"].update(
     level=TEXT["C17"]["level"] + " build_announcement_pure (Verus, unbounded): header fields copied; one prefix option per configured prefix, in order, with its flags/lifetimes/address; recursive DNS servers / search list / captive portal: the interface's value wins, null (DontSet) gives no option, "
           "not specified falls back to the top-level setting with the unspecified address replaced by the interface's own address and IPv4 servers dropped; lifetimes default to 1800 s; PREF64 copied; exact option order; every link-layer option is 6 octets (the serialiser's precondition).",
     note="Not decided: the path from YAML to radv::config::Interface beyond the sliced tri-state arms, build_announcement (async netinfo lookups: which interface address becomes $self6, MTU).")
+
+TEXT["C11"].update(
+    level=TEXT["C11"]["level"] + " Top-level defaults (Verus, R9 slices of build_default_config): the base policy always matches and carries exactly DNS servers (option 6: IPv4 servers in order, 0.0.0.0 = $self4 replaced by the address the request arrived on, IPv6 servers left out), "
+          "search list (119) and captive portal (114, an explicit do-not-send entry when none is configured); for the subnet the request arrived on: interface MTU (26) and default router (3), nothing else touched; handle_discover/handle_request apply the base policy FIRST and the configured policies after it, so those override it.",
+    note="Not decided: the construction of the base policy's sub-policy list around the slices (filter_map over `addresses`), interface matching (match-interface is parsed but never evaluated by the code), if_mtu > 65535. Assumed: see evidence.")
